@@ -20,6 +20,7 @@ wire mapper: "lower" | "camel" | {"d": [[key, val]]}, val = str | {"dns": true} 
 attr = mapper | {"list": [mapper]}
 instance tree = {field: int | tree | [tree]}  (absent optional fields are missing)
 """
+import itertools
 import json
 
 from typedpy import Structure, Integer, Array, Set, Serializer, Deserializer, mappers, serialize, deserialize_structure
@@ -410,7 +411,7 @@ def gen_cases(rng, tier, n):
                     case["entry"] = "function"
                 cases.append(case)
     return (cases + history_cases(rng, max(20, n // 25)) + closed_cases(rng, max(40, n // 8)) + fixed_cases()
-            + ku_cases(rng, max(30, n // 16)) + des_cases(rng, max(40, n // 12)) + mi_cases(rng, max(60, n // 8)))
+            + map_cases(rng, max(40, n // 10)) + ku_cases(rng, max(30, n // 16)) + des_cases(rng, max(40, n // 12)) + mi_cases(rng, max(60, n // 8)))
 
 
 def _flat(name, fields, mapper, opt=()):
@@ -677,6 +678,8 @@ def find_cd(cd, name):
 
 
 def run_impl(case):
+    if case.get("oracle") == "map":
+        return run_map(case)
     cd = case["cls"]
     registry = {}
     cls = build_class(cd, registry)
@@ -725,12 +728,14 @@ def run_call(cd, registry, case):
     if ser_w is not None:
         try:
             real_cache = _mappers_module.aggregated_mapper_by_class
-            before = set(real_cache)
+            n0 = len(real_cache)
             doc = ser_w.serialize(camel_case_convert=camel)
             out["doc"] = doc_to_wire(doc)
             names = {c: n for n, c in registry.items()}
+            # the dict keeps insertion order and entries are never removed: the new ones are the last ones
+            fresh = list(itertools.islice(reversed(real_cache.items()), len(real_cache) - n0))[::-1]
             out["cache_new"] = [[names.get(k[0], getattr(k[0], "__name__", "?")), "ov" if k[1] else "", bool(k[2]),
-                                 mapper_to_wire(v)] for k, v in real_cache.items() if k not in before]
+                                 mapper_to_wire(v)] for k, v in fresh]
             doc_f = serialize(x, mapper=explicit, camel_case_convert=camel)
             if doc_f != doc:
                 out["ser_paths_differ"] = [doc, doc_f]
@@ -804,6 +809,8 @@ def call_ku(call):
 
 
 def line(case, impl):
+    if case.get("oracle"):
+        return None          # oracle-only: no model counterpart
     l = call_wire(case["cls"], case, impl)
     l["suite"] = "mapper"
     pre = case.get("pre") or []
@@ -840,12 +847,22 @@ def mapper_kinds(cd, acc):
 
 
 def tags(case, impl, model):
+    if case.get("oracle") == "map":
+        r = impl.get("deser", {})
+        return ["stream=map-values(oracle-only)", f"camel={case['camel']}", "holder=" + case["spec"]["holder"],
+                "map-value-roundtrip=" + ("equal" if r.get("equal") and not r.get("extras") else
+                                          "extras" if r.get("extras") else "different")]
     t = [f"depth={class_depth(case['cls'])}", f"hier={len(case['cls']['levels'])}",
          f"camel={case['camel']}", f"strict={case['strict']}",
          "explicit=" + ("none" if case["explicit"] is None else "yes")]
     t += ["mapper:" + k for k in sorted(mapper_kinds(case["cls"], set()))]
     t.append("entry=" + case.get("entry", "Deserializer"))
     t.append("keep_undefined=" + str(call_ku(case)))
+    mo = (model or {}).get("out") if model else None
+    if mo and "cacheNew" in mo and "cache_new" in impl:
+        same = [e[:3] for e in mo["cacheNew"]] == [e[:3] for e in impl["cache_new"]]
+        t.append("cache-keys-filed=" + ("as-modelled" if same else "differ"))
+        t.append(f"cache-entries-filed={min(len(impl['cache_new']), 4)}")
     if any("bases" in lv for lv in case["cls"]["levels"]):
         t.append("multiple-inheritance")
     if any(lv.get("des") is not None for c in all_cds(case["cls"]) for lv in c["levels"]):
@@ -873,6 +890,13 @@ def tags(case, impl, model):
         t.append("hyp.dom=" + str(out["hyp"]["dom"]))
         if "region" in out["hyp"]:
             t.append("hyp.region=" + str(out["hyp"]["region"]))
+            h = out["hyp"]
+            if h.get("domE") and class_depth(case["cls"]) >= 2:
+                t.append("nested,in-domain: " + ("Sync holds" if h.get("rtNoKu") else "Sync fails") + ", "
+                         + ("inside region" if h["region"] else "outside region"))
+                if not h["region"]:
+                    t.append(("Sync holds" if h.get("rtNoKu") else "Sync fails") + " outside region because: "
+                             + h.get("regionWhy", "?"))
             if class_depth(case["cls"]) >= 2:
                 t.append(f"nested-class-tree:region={out['hyp']['region']}")
             if class_depth(case["cls"]) >= 3:
@@ -881,11 +905,16 @@ def tags(case, impl, model):
 
 
 def nontrivial(case):
+    if case.get("oracle"):
+        return True
     return bool(mapper_kinds(case["cls"], set()) - {"nested:one", "nested:arr", "nested:set"}) or case["camel"] \
         or case["explicit"] is not None or bool(case.get("pre"))
 
 
 def describe(case, impl, model):
+    if case.get("oracle"):
+        return {"stream": "map-values (oracle-only)", "spec": case["spec"], "camel": case["camel"],
+                "real_document": impl.get("doc"), "real_deserialized": impl.get("deser")}
     return {"class": case["cls"], "kw": case["kw"], "camel": case["camel"], "strict": case["strict"],
             "explicit": case["explicit"], "history": case.get("pre") or [], "real_document": wire_to_py(impl["doc"]) if "doc" in impl else None,
             "real_deserialized": impl.get("deser"), "model_hypotheses": (model or {}).get("hyp")}
@@ -933,9 +962,159 @@ def correspondence(cd, impl, model):
         if "ok" in r and canon_inst(r["ok"], cd) != canon_inst(m["ok"], cd):
             return (f"{key} instance differs: real {json.dumps(canon_inst(r['ok'], cd))[:300]} model "
                     f"{json.dumps(canon_inst(m['ok'], cd))[:300]}")
-    if "cache_new" in impl and "cacheNew" in model and impl["cache_new"] != model["cacheNew"]:
-        return ("entries filed in aggregated_mapper_by_class by this call differ: real "
-                + json.dumps(impl["cache_new"])[:400] + " model " + json.dumps(model["cacheNew"])[:400])
+    # the cache invariant (CacheOK): an entry the real code filed under a key the model files too must hold the
+    # model's aggregate for that key — a wrong value is handed to every later call with that key.  WHICH keys
+    # get filed is the code's business (a different caching strategy is not a violation): only tagged.
+    if "cache_new" in impl and "cacheNew" in model:
+        mine = {(e[0], e[1], e[2]): e[3] for e in model["cacheNew"]}
+        for e in impl["cache_new"]:
+            k = (e[0], e[1], e[2])
+            if k in mine and mine[k] != e[3]:
+                return (f"aggregated_mapper_by_class[{k}] filed by this call is not the aggregate of that class / "
+                        "override / flag: real " + json.dumps(e[3])[:400] + " model " + json.dumps(mine[k])[:400])
     if not model["keysLaw"]:
         return "model's own document does not satisfy keysLaw (theorem ser_keys_eq_image contradicted?)"
     return None
+
+# ------------------------------------------------------------------ oracle-only stream: structures as Map values
+# (no Lean counterpart: a structure stored as a Map value is serialized / deserialized as a call of its own —
+#  own mappers only, nothing from the containing class passes through; the model has no Map shape)
+
+SAFE_NAMES = ["a_b", "c_d", "e_f", "g", "h_i", "j_k_l", "m", "n_o"]
+
+
+def _safe_mapper(rng, names):
+    r = rng.random()
+    if r < 0.25:
+        return None
+    if r < 0.45:
+        return "lower"
+    if r < 0.65:
+        return "camel"
+    chosen = rng.sample(names, rng.randint(1, len(names)))
+    return {"d": [[n, f"K{i}_{n.replace('_', '')}"] for i, n in enumerate(chosen)]}
+
+
+def map_cases(rng, n):
+    out = []
+    for _ in range(n):
+        pool = SAFE_NAMES[:]
+        rng.shuffle(pool)
+        wn = [pool.pop() for _ in range(rng.randint(1, 2))]
+        vn = [pool.pop() for _ in range(rng.randint(1, 2))]
+        nest = rng.choice([None, None, "one", "arr"])
+        spec = {"w": {"fields": wn, "mapper": _safe_mapper(rng, wn)} if nest else None, "nest": nest,
+                "nest_field": pool.pop() if nest else None,
+                "v": {"fields": vn, "mapper": None}, "outer_mapper": rng.choice([None, "lower", "camel", {"d": [["z_z", "ZZ1"]]}]),
+                "holder": rng.choice(["map", "map", "array_of_map"]),
+                "keys": rng.sample(["k_a", "kB", "x", "A_b"], rng.randint(1, 2))}
+        spec["v"]["mapper"] = _safe_mapper(rng, vn + ([spec["nest_field"]] if nest else []))
+        for camel in (False, True) if rng.random() < 0.4 else (False,):
+            out.append({"oracle": "map", "spec": spec, "camel": camel, "strict": rng.random() < 0.3,
+                        "vals": [rng.choice([0, 1, 2, 5, 7]) for _ in range(12)]})
+    return out
+
+
+def _safe_key(mappers_list, camel, name):
+    """key of `name` under a list of safe mappers (then camel_case_convert)"""
+    from typedpy.serialization.mappers import _convert_to_camelcase
+    cur = name
+    for m in mappers_list + (["camel"] if camel else []):
+        if m == "lower":
+            cur = cur.upper()
+        elif m == "camel":
+            cur = _convert_to_camelcase(cur)
+        elif m is not None:
+            cur = dict(m["d"]).get(cur, cur)
+    return cur
+
+
+def run_map(case):
+    from typedpy import Map, String
+    spec, camel = case["spec"], case["camel"]
+    vals = iter(case["vals"] * 4)
+
+    def mk(name, fields, mapper, extra=None):
+        ns = {f: Integer for f in fields}
+        ns.update(extra or {})
+        if mapper is not None:
+            ns["_serialization_mapper"] = to_py_mapper(mapper)
+        _counter[0] += 1
+        return StructMeta(f"{name}{_counter[0]}", (Structure,), ns)
+
+    W = mk("W", spec["w"]["fields"], spec["w"]["mapper"]) if spec["nest"] else None
+    extra = {}
+    if spec["nest"]:
+        extra[spec["nest_field"]] = W if spec["nest"] == "one" else Array[W]
+    V = mk("V", spec["v"]["fields"], spec["v"]["mapper"], extra)
+    holder = Map[String, V] if spec["holder"] == "map" else Array[Map[String, V]]
+    O = mk("O", ["z_z"], spec["outer_mapper"], {"m": holder})
+
+    def w_inst():
+        return W(**{f: next(vals) for f in spec["w"]["fields"]})
+
+    def v_inst():
+        kw = {f: next(vals) for f in spec["v"]["fields"]}
+        if spec["nest"]:
+            kw[spec["nest_field"]] = w_inst() if spec["nest"] == "one" else [w_inst(), w_inst()]
+        return V(**kw)
+
+    the_map = {k: v_inst() for k in spec["keys"]}
+    o = O(z_z=next(vals), m=the_map if spec["holder"] == "map" else [the_map])
+    out = {}
+    try:
+        doc = Serializer(o).serialize(camel_case_convert=camel)
+        out["doc"] = doc
+    except Exception as e:
+        out["ser_err"] = err_name(e)
+        out["ser_msg"] = str(e)[:300]
+        return out
+    # the specified document: map keys untouched, every value written as a call of its own
+    v_list = [spec["v"]["mapper"]]
+    w_list = ([spec["w"]["mapper"]] if spec["nest"] else []) + [m for m in v_list if m in ("lower", "camel")]
+
+    def w_doc(w):
+        return {_safe_key(w_list, camel, f): getattr(w, f) for f in spec["w"]["fields"]}
+
+    def v_doc(v):
+        d = {_safe_key(v_list, camel, f): getattr(v, f) for f in spec["v"]["fields"]}
+        if spec["nest"]:
+            x = getattr(v, spec["nest_field"])
+            d[_safe_key(v_list, camel, spec["nest_field"])] = w_doc(x) if spec["nest"] == "one" else [w_doc(e) for e in x]
+        return d
+
+    m_doc = {k: v_doc(v) for k, v in the_map.items()}
+    out["spec_doc"] = {_safe_key([spec["outer_mapper"]], camel, "z_z"): o.z_z,
+                       _safe_key([spec["outer_mapper"]], camel, "m"): m_doc if spec["holder"] == "map" else [m_doc]}
+    try:
+        y = Deserializer(O, camel_case_convert=camel, use_strict_mapping=case["strict"]).deserialize(doc)
+    except Exception as e:
+        out["deser"] = {"err": err_name(e), "msg": str(e)[:300]}
+        return out
+    extras = []
+    maps = [y.m] if spec["holder"] == "map" else list(y.m)
+    for mp in maps:
+        for k, v in mp.items():
+            allowed = set(spec["v"]["fields"]) | ({spec["nest_field"]} if spec["nest"] else set())
+            extras += [f"m[{k}].{a}" for a in v.__dict__ if a not in INTERNAL and a not in allowed]
+    out["deser"] = {"ok": True, "equal": bool(y == o), "extras": extras}
+    return out
+
+
+def judge_map(case, impl):
+    fails = []
+    desc = json.dumps(case["spec"])[:400] + f" camel_case_convert={case['camel']}"
+    if "ser_err" in impl:
+        return None, [(f"serialize-raises:{impl['ser_err']}", f"map-value stream: {impl.get('ser_msg')} for {desc}")]
+    if impl["doc"] != impl["spec_doc"]:
+        fails.append(("keyset-law:map-value", "a structure stored as a Map value is not written under its own class's "
+                      "keys: real " + json.dumps(impl["doc"])[:300] + " specified " + json.dumps(impl["spec_doc"])[:300]
+                      + " for " + desc))
+    r = impl.get("deser", {})
+    if not (r.get("ok") and r.get("equal") and not r.get("extras")):
+        key = "roundtrip:map-value:unexplained"
+        if r.get("extras"):
+            key = "keep-undefined-leak:deserialize_map"
+        fails.append((key, "deserialize(serialize(x)) != x for a class holding structures as Map values: document "
+                      + json.dumps(impl["doc"])[:300] + " gave " + json.dumps(r)[:300] + " for " + desc))
+    return None, fails
